@@ -14,6 +14,8 @@ CAL_NOTE = ("Trusted: Lean kernel + axioms propext/Classical.choice/Quot.sound (
 
 TXT_NOTE = 'Trusted: Lean kernel + standard axioms; extractor + correspondence check. Modelled: strings as character lists; strconv.ParseInt as sign+digits WITHOUT the int64 range check (digit runs >18 are `unmodelled`: only totality compared); strconv.ParseFloat on plain decimals only (exact rational; the Go float64 must be its correctly rounded image); encoding/json on the documented flat object only; fmt %d/%.2d/%.4d as the padding printer. The Go parsers of date.go/hms.go have no index/slice/assertion outside a length guard, so their models have no panic branch - tied by the exhaustive short-string stream under recover().'
 
+LOCKNOTE = "Trusted: Lean kernel + standard axioms; extractor (go/ast walk of threadsafe.go + lock events recorded through the verif hook, aligned; locks inside branches/loops make it fail loudly) and the oracle. Modelled, not verified: sync.RWMutex as a writer-preferring reader/writer lock providing the documented memory ordering; the Go scheduler, the memory model below the mutex and channel operations are outside the model. Programs are over two sets (the property's quantifier); lock ids are address order as in the repaired code."
+
 CLAIMS = {
  "C01": dict(technique="Lean 4 theorems (Bijective per configuration, over all of Z) + exhaustive block-hash correspondence model vs code",
              text="Machine-checked proof: for each of the eight arithmetic configurations `Bijective c` (ToJd(JdTo jd)=jd, JdTo jd well-formed, JdTo(ToJd d)=d for every well-formed d, hence injective/surjective) is a Lean theorem about the executable model the driver runs; the model is tied to /repo by a correspondence that in the thorough tier enumerates the property's whole domain (80,000,001 day numbers and every year x month x day, 9 configurations) and in the quick tier a dense 8M-day window plus boundaries and seeded random blocks. The same sweep evaluates the property directly on the real code to produce replays.",
